@@ -56,7 +56,7 @@ def from_items(q):
     if q is None:
         return
     if isinstance(q, gen.Sel):
-        for j in q.frm:
+        for j in gen.flat(q.frm):
             yield q, j
             if isinstance(j.item, gen.Der):
                 yield from from_items(j.item.q)
@@ -103,7 +103,7 @@ def all_withs(q):
         for b in q.branches:
             yield from all_withs(b)
     elif isinstance(q, gen.Sel):
-        for j in q.frm:
+        for j in gen.flat(q.frm):
             if isinstance(j.item, gen.Der):
                 yield from all_withs(j.item.q)
 
@@ -219,7 +219,7 @@ def reentrant_slots(st):
 def all_sels(q):
     if isinstance(q, gen.Sel):
         yield q
-        for j in q.frm:
+        for j in gen.flat(q.frm):
             if isinstance(j.item, gen.Der):
                 yield from all_sels(j.item.q)
         for sub in ([q.where_in[1]] if q.where_in else []) + [q.where_exists, q.having_scalar]:
